@@ -30,8 +30,10 @@ Step(q) ==
     [] q.k = "hist" -> HistStep(q)
     [] q.k = "elemplan" -> [patterns |-> ElemPatterns, args |-> [m \in AllModels |-> {[par |-> a, xs |-> ElemArgs(m, a)] : a \in ParamsG(m)}]]
     [] q.k = "elem" -> ElemStep(q)
-    [] q.k = "obs" -> IF Calc(q.model) = "loading" THEN ObsLoadingExplicit(q.model, q.par, q.pts, q.zero, q.hen)
-                      ELSE ObsPressureExplicit(q.model, q.par, q.pts, q.zero, q.hen)
+    [] q.k = "obs" -> IF Calc(q.model) = "loading" THEN ObsLoadingExplicit(q.model, q.par, q.pts, q.zero, q.hen, q.e10)
+                      ELSE ObsPressureExplicit(q.model, q.par, q.pts, q.zero, q.hen, q.e10)
+    [] q.k = "magplan" -> [exps |-> MagnitudeExps, power |-> [m \in {mm \in AllModels : Rescalable(mm)} |-> PressurePower(m)]]
+    [] q.k = "intplan" -> [m \in AllModels |-> {[par |-> a, pressures |-> IntPressures(m, a), loadings |-> IntLoadings(m, a)] : a \in ParamsG(m)}]
 
 ASSUME JsonSerialize(IOEnv.X_OUT, [i \in 1..Len(X) |-> Step(X[i])])
 VARIABLE x
